@@ -22,8 +22,11 @@ class DjangoModelWithoutDunderStrTransformer(
         cst.BaseStatement, cst.FlattenSentinel[cst.BaseStatement], cst.RemovalSentinel
     ]:
 
-        # TODO: add filter by include or exclude that works for nodes
-        # that that have different start/end numbers.
+        # The class spans several lines: findings and line includes/excludes
+        # refer to the class name in the header.
+        if not self.node_is_selected(original_node.name):
+            return updated_node
+
         if not any(
             self.find_base_name(base.value) == "django.db.models.Model"
             for base in original_node.bases
